@@ -199,7 +199,7 @@ def run(ctx):
     # 4. negative control: a recorder that lies about one run of every fifth input
     t_n, i_n = os.path.join(wd, "neg.ndjson"), os.path.join(wd, "neg-inputs.ndjson")
     vlib.harness("c16", ["record", "universe", "150", t_n, i_n], env={"C16_STUB": "salt"})
-    neg_v = vlib.Verdicts(PID)
+    neg_v = vlib.Verdicts(PID, control=True)
     neg_v.known = []
     neg_ev = vlib.Evidence(PID, tier, "exploration")
     nrecs, ninputs, nrejects, _ = validate(wd, "negative-control", t_n, i_n, "universe", neg_ev, neg_v)
